@@ -8,7 +8,10 @@
     feature subsets x options x chunk sizes: output re-opened with dclab and with raw h5py,
     compared with the property oracle evaluated directly (`out[f] == src[f][mask]`, event count,
     metadata, logs, tables) and, as tokens, with the Lean model;
-(C) `Export.tsv` parsed back (|parsed - x| <= 6e-11 |x|, NaN/inf textual).
+(C) `Export.tsv` parsed back (|parsed - x| <= 6e-11 |x|, NaN/inf textual), source sizes incl.
+    1024 and 2048 events with selections of arbitrary size.
+Logs are compared content-exact against the lines the harness stored (independently of the writer
+under test); the export must not modify the configuration of the source.
 """
 import copy
 import hashlib
@@ -20,7 +23,10 @@ from . import common, gen
 
 ID = "C02"
 LEAN_MODULES = ["DclabModel.Properties.C02"]
-RULE = ("A: index lists of length 0..4*cs+1 for cs in 1..7 and 10, both generator paths, eager and "
+RULE = ("Logs of the sources are generated (short / > 100 bytes, ASCII and 2-, 3-, 4-byte UTF-8 "
+        "characters, empty lines, empty logs) and written with plain h5py or set in memory, and "
+        "compared content-exact; source sizes include powers of two and 1024 / 2048 with selections "
+        "of arbitrary residue. A: index lists of length 0..4*cs+1 for cs in 1..7 and 10, both generator paths, eager and "
         "lazy consumer, write loop for data lengths around multiples of cs. B: first a fixed list "
         "(every source kind x {empty, full, single} mask x filtered/unfiltered, trace-only, "
         "missing feature), then seeded cases: source kind, 5-36 events, random feature subset "
@@ -230,6 +236,48 @@ def ensure_registered():
         _registered = True
 
 
+LOG_ALPHABETS = {
+    "ascii": "abcdefghijklmnopqrstuvwxyz0123456789 .:_-/[]()%",
+    "2byte": "\u00e4\u00f6\u00fc\u00b5\u00b0\u00df\u00e9",         # ä ö ü µ ° ß é
+    "3byte": "\u65e5\u672c\u8a9e\u20ac\u2192\u221e",                # 日 本 語 € → ∞
+    "4byte": "\U0001F600\U0001D70B\U00010348",                        # 😀 𝜋 𐍈
+}
+
+
+def make_line(rng):
+    """one log line: short or long (> 100 bytes), ASCII or multi-byte UTF-8, so that the length
+    in bytes differs from the length in characters in every possible direction"""
+    kind = rng.choice(["ascii", "2byte", "3byte", "4byte", "mixed", "mixed"])
+    nchar = rng.choice([0, 1, 7, 34, 51, 60, 99, 100, 101, 130, 257])
+    if kind == "mixed":
+        pools = list(LOG_ALPHABETS.values())
+        return "".join(rng.choice(rng.choice(pools)) for _ in range(nchar)).strip()
+    return "".join(rng.choice(LOG_ALPHABETS[kind]) for _ in range(nchar)).strip()
+
+
+def make_logs(rng):
+    """name -> lines; includes an empty log from time to time"""
+    logs = {}
+    for name in rng.sample(["log_a", "log-b", "cfg.ini", "M1_para.ini", "shapein"],
+                           rng.randint(1, 3)):
+        logs[name] = [make_line(rng) for _ in range(rng.choice([0, 1, 2, 3, 6]))]
+    return logs
+
+
+def write_logs_raw(path, logs):
+    """store logs with plain h5py (fixed-length UTF-8 byte strings, the .rtdc layout), so that the
+    source file does not depend on the writer under test"""
+    import h5py
+    with h5py.File(path, "a") as h5:
+        grp = h5.require_group("logs")
+        for name, lines in logs.items():
+            bl = [ln.encode("utf-8") for ln in lines]
+            width = max([100] + [len(b) for b in bl])
+            if name in grp:
+                del grp[name]
+            grp.create_dataset(name, data=np.array(bl, dtype=f"S{width}"), shape=(len(bl),))
+
+
 def make_file(path, toks, feats, short=None, logs=None, tables=None, user=None):
     """hdf5 source; `short` = {feat: number of missing rows at the end}"""
     dclab = common.import_dclab()
@@ -249,10 +297,10 @@ def make_file(path, toks, feats, short=None, logs=None, tables=None, user=None):
                 hw.store_feature(f, rows_of(f, tk), shape=(3, 2))
             else:
                 hw.store_feature(f, rows_of(f, tk))
-        for name, ln in (logs or {}).items():
-            hw.store_log(name, ln)
         for name, tab in (tables or {}).items():
             hw.store_table(name, tab)
+    if logs:
+        write_logs_raw(path, logs)
     if short:   # rectify_metadata took the count of the alphabetically first feature
         import h5py
         with h5py.File(path, "a") as h5:
@@ -282,6 +330,8 @@ def build_source(ctx, case, tag):
         ds.config["setup"]["medium"] = "CellCarrierB"
         ds.config["setup"]["channel width"] = 20.0
         ds.config["user"]["note"] = "c02"
+        for name, lines in (case.get("logs_content") or {}).items():
+            ds.logs[name] = list(lines)
     elif base in ("hdf5", "short"):
         path = ctx.workdir / f"src_{tag}.rtdc"
         tables = None
@@ -289,7 +339,7 @@ def build_source(ctx, case, tag):
             tables = {"tab_one": {"a": [1.0, 2.0, 3.0], "b": [0.5, float(len(toks)), 7.0]}}
         make_file(path, toks, [f for f in avail if f != "c02_nd" or base == "hdf5"],
                   short=case.get("short") if base == "short" else None,
-                  logs={"log_a": ["line 1", "line 2 %d" % len(toks)], "log-b": ["x"]},
+                  logs=case.get("logs_content") or {"log_a": ["line 1", "line 2"], "log-b": ["x"]},
                   tables=tables, user={"note": "c02", "number": 3})
         ds = dclab.new_dataset(path)
     elif base == "tdms":
@@ -369,7 +419,11 @@ def log_tokens(logs, skip_export=False):
     for name in logs:
         if skip_export and name.startswith("dclab-export_"):
             continue
-        out.append(f"{name_ok(name)}={tok(list(logs[name]))}")
+        lines = [ln if isinstance(ln, str) else bytes(ln).decode("utf-8", "replace")
+                 for ln in logs[name]]
+        if not lines:
+            continue            # an empty log is not stored (and hidden by the reader)
+        out.append(f"{name_ok(name)}={tok(lines)}")
     return sorted(out)
 
 
@@ -435,7 +489,13 @@ def _run_export(ctx, case, tag, res):
             sk, v = c.split("=")
             s_, k_ = sk.split(":")
             L.append(f"cfg {s_} {k_} {v}")
-        for c in log_tokens(ds.logs):
+        src_logs = log_tokens(ds.logs)
+        if case.get("logs_content") is not None:
+            truth = log_tokens(case["logs_content"])
+            if truth != src_logs:
+                res["oracle"].append(f"logs of the source read as {src_logs}, stored {truth}")
+            src_logs = truth
+        for c in src_logs:
             L.append("log " + " ".join(c.split("=")))
         for c in table_tokens(ds.tables):
             L.append("table " + " ".join(c.split("=")))
@@ -447,6 +507,7 @@ def _run_export(ctx, case, tag, res):
                 filtered, case["logs"], case["tables"], case.get("skip", 0), cs, cs,
                 "".join("1" if b else "0" for b in mask) or "-",
                 ",".join(mfeats) or "-"))
+            cfg_before = (cfg_tokens(ds, sections), repr(dict(ds.config["experiment"])))
             try:
                 ds.export.hdf5(out, features=req, filtered=filtered, logs=bool(case["logs"]),
                                tables=bool(case["tables"]), override=True,
@@ -462,6 +523,10 @@ def _run_export(ctx, case, tag, res):
             return res
         if missing:
             res["oracle"].append(f"export of missing feature(s) {missing} did not raise")
+        cfg_after = (cfg_tokens(ds, sections), repr(dict(ds.config["experiment"])))
+        if cfg_after != cfg_before:
+            res["oracle"].append(f"the export modified the configuration of the source dataset: "
+                                 f"{cfg_before[1]} -> {cfg_after[1]}")
         # ---- expected selection (the property's oracle) ---------------------------------
         lens = [feat_len(ds, f) for f in present]
         eff = mask.copy() if filtered else np.ones(n, dtype=bool)
@@ -532,9 +597,22 @@ def _run_export(ctx, case, tag, res):
         if cfg_o != cfg_s:
             res["oracle"].append(f"metadata not carried over: {sorted(set(cfg_s) ^ set(cfg_o))[:4]}")
         logs_o = log_tokens(o.logs, skip_export=True)
-        logs_w = sorted("src_" + c for c in log_tokens(ds.logs)) if case["logs"] else []
+        logs_w = sorted("src_" + c for c in src_logs) if case["logs"] else []
         if logs_o != logs_w:
-            res["oracle"].append(f"logs in output {logs_o} expected {logs_w}")
+            detail = ""
+            for name in o.logs:          # content-exact: show the first differing line
+                want = (case.get("logs_content") or {}).get(name[4:])
+                if want is not None and list(o.logs[name]) != list(want):
+                    got = list(o.logs[name])
+                    k = next((i for i, (a, b) in enumerate(zip(got, want)) if a != b),
+                             min(len(got), len(want)))
+                    detail = (f"; log {name[4:]!r} line {k}: read back "
+                              f"{got[k][:40] if k < len(got) else None!r}… "
+                              f"({len(got[k].encode()) if k < len(got) else 0} bytes), stored "
+                              f"{len(want[k].encode()) if k < len(want) else 0} bytes")
+                    break
+            res["oracle"].append(f"logs not carried over unchanged: output {logs_o} expected "
+                                 f"{logs_w}{detail}")
         tabs_o = table_tokens(o.tables)
         tabs_w = sorted("src_" + c for c in table_tokens(ds.tables)) if case["tables"] else []
         if tabs_o != tabs_w:
@@ -598,9 +676,14 @@ def random_case(ctx, i, thorough_tdms=False):
     cs = rng.choice([1, 2, 3, 4, 5, 7, None])
     ce = 10 if cs is None else cs
     n = rng.randint(5, 36 if cs is None or cs > 3 else 16)
-    toks = rng.sample(range(500), n)
+    if rng.random() < 0.2:          # exact powers of two
+        n = rng.choice([8, 16, 32, 64] + ([128, 256] if cs is None or cs > 3 else []))
+    toks = rng.sample(range(max(500, 4 * n)), n)
     avail = ["deform", "area_um"] + [f for f in SCALARS[2:] + NONSCALAR if rng.random() < 0.7]
-    case = {"kind": kind, "toks": toks, "avail": avail, "cs": cs, "parent_masks": []}
+    if n > 64:
+        avail = [f for f in avail if f not in ("contour", "c02_nd")]
+    case = {"kind": kind, "toks": toks, "avail": avail, "cs": cs, "parent_masks": [],
+            "logs_content": make_logs(rng)}
     if kind.endswith("short"):
         if not any(f in avail for f in ("image", "mask", "trace")):
             avail.append("image")
@@ -634,6 +717,29 @@ def random_case(ctx, i, thorough_tdms=False):
     return no_unfiltered_nonsliceable(case)
 
 
+def big_cases(ctx):
+    """sources whose size is a multiple of 1024, selections of arbitrary residue"""
+    rng = ctx.rng
+    out = []
+    for n, kind, k in ((1024, "hdf5", None), (2048, "dict", None), (2048, "hdf5", 1024),
+                       (1024, "child-hdf5", None)):
+        toks = rng.sample(range(4 * n + 2048), n + (n if kind.startswith("child") else 0))
+        pms = []
+        if kind.startswith("child"):       # the child has exactly n events
+            on = set(rng.sample(range(2 * n), n))
+            pms = [[int(i in on) for i in range(2 * n)]]
+        if k is None:
+            k = rng.randint(1, n - 1)
+        sel_ = set(rng.sample(range(n), k))
+        out.append({"kind": kind, "toks": toks, "avail": ["deform", "area_um", "temp", "image", "trace"],
+                    "cs": rng.choice([None, 7]), "parent_masks": pms,
+                    "req": rng.sample(["deform", "image", "trace", "temp"], 3),
+                    "filtered": 1, "logs": 1, "tables": 0, "skip": 0, "with_tables": False,
+                    "logs_content": make_logs(rng),
+                    "mask": [int(i in sel_) for i in range(n)]})
+    return out
+
+
 def no_unfiltered_nonsliceable(case):
     """the unfiltered route stores `ds[feat]` by slicing; integer-only containers (tdms images,
     `NoArray`) do not support that, so they are always exported through a filter"""
@@ -657,7 +763,10 @@ def fixed_cases():
                 c = {"kind": kind, "toks": toks, "avail": avail, "cs": 3, "parent_masks": pms,
                      "req": ["image", "deform", "trace", "contour", "mask", "deform"],
                      "filtered": filt, "logs": 1, "tables": 1, "skip": 0, "mask": mask,
-                     "with_tables": True}
+                     "with_tables": True,
+                     "logs_content": {"log_a": ["T = 23.5 \u00b0C, \u00f8 = 20 \u00b5m " * 5,
+                                                "x" * 130, "", "\u65e5\u672c\u8a9e" * 40],
+                                      "log-b": ["\U0001F600" * 30 + "abc"], "none": []}}
                 if kind == "short":
                     c["short"] = {"image": 2}
                 out.append(no_unfiltered_nonsliceable(c))
@@ -716,7 +825,7 @@ def shrink_case(ctx, case, still_fails):
 
 def part_b(ctx):
     lines, expect, metas = [], [], []
-    cases = fixed_cases() + [random_case(ctx, i) for i in range(ctx.n(150, 2500))]
+    cases = fixed_cases() + big_cases(ctx) + [random_case(ctx, i) for i in range(ctx.n(150, 2500))]
     if ctx.thorough:
         for fx in ("fmt-tdms_fl-image_2016.zip", "fmt-tdms_minimal_2016.zip"):
             for mk in ("empty", "random", "full", "kcs+1"):
@@ -820,16 +929,24 @@ def close_enough(txt, x):
 def part_c(ctx):
     dclab = common.import_dclab()
     lines, expect = [], []
-    for ci in range(ctx.n(40, 400)):
-        rng = ctx.rng
-        kind = rng.choice(["dict", "hdf5", "child-hdf5", "child-child-dict"])
-        n = rng.randint(3, 30)
-        toks = rng.sample(range(500), n)
+    rng = ctx.rng
+    specs = [("hdf5", 1024, None), ("dict", 2048, None), ("dict", 2048, 1024), ("hdf5", 2048, 2047),
+             ("child-dict", 1024, None)]
+    specs += [(rng.choice(["dict", "hdf5", "child-hdf5", "child-child-dict"]),
+               rng.choice([rng.randint(3, 30), rng.randint(3, 30), rng.choice([4, 16, 64, 256])]),
+               None) for _ in range(ctx.n(40, 400))]
+    for ci, (kind, n, ksel) in enumerate(specs):
+        big = n >= 1024
+        toks = rng.sample(range(max(500, 8 * n)), n * (2 if big and kind.startswith("child") else 1))
         avail = list(SCALARS) + ["image"]
         case = {"kind": kind, "toks": toks, "avail": avail, "cs": None, "parent_masks": []}
-        cur = n
+        cur = len(toks)
         for _ in range(kind.count("child")):
-            pm = make_mask(rng, cur, "random", 10)
+            if big:
+                on = set(rng.sample(range(cur), n))
+                pm = [int(i in on) for i in range(cur)]
+            else:
+                pm = make_mask(rng, cur, "random", 10)
             if sum(pm) < 2:
                 pm = [1] * cur
             case["parent_masks"].append(pm)
@@ -839,10 +956,14 @@ def part_c(ctx):
                for f in req]
         if req and rng.random() < 0.4:
             req += [rng.choice(req).lower()]
-        if rng.random() < 0.05:
+        if rng.random() < 0.05 and not big:
             req.append("image")                                 # not scalar -> ValueError
-        filtered = int(rng.random() < 0.8)
-        mask = make_mask(rng, cur, rng.choice(["empty", "full", "single", "random", "random"]), 10)
+        filtered = int(rng.random() < 0.8 or big)
+        if big:
+            on = set(rng.sample(range(cur), ksel if ksel is not None else rng.randint(1, cur - 1)))
+            mask = [int(i in on) for i in range(cur)]
+        else:
+            mask = make_mask(rng, cur, rng.choice(["empty", "full", "single", "random", "random"]), 10)
         try:
             ds, opened = build_source(ctx, case, "c")
         except Exception as e:  # noqa
@@ -870,17 +991,18 @@ def part_c(ctx):
                 if len(rows) != (len(idx) if low else 0):
                     bad.append(f"{len(rows)} rows, selection has {len(idx)} events")
                 tokrows = []
+                cols = {f: np.asarray(ds[f]) for f in low}
                 for j, r in enumerate(rows):
                     tr = []
                     for k, f in enumerate(low):
-                        col = np.asarray(ds[f])
+                        col = cols[f]
                         t = None
                         if j < len(idx) and k < len(r) and close_enough(r[k], col[idx[j]]):
                             t = int(idx[j])
                         else:
                             bad.append(f"row {j} column {f}: '{r[k] if k < len(r) else None}' is not "
                                        f"the value of event {int(idx[j]) if j < len(idx) else None}")
-                            for i in range(len(col)):
+                            for i in range(len(col) if len(bad) < 6 else 0):
                                 if k < len(r) and close_enough(r[k], col[i]):
                                     t = i
                                     break
